@@ -95,7 +95,9 @@ def run(R, tier):
             continue
         # suffix spellings the code itself knows (byte-string constants of the conversion and its helpers' call sites)
         lits = set()
-        for m_ in b.all_mirs():
+        # (the conversion itself and the closures it creates - a suffix table handed to a shared helper as a closure)
+        own_bodies = [b] + [c_ for c_ in u.bodies if c_.kind == "Closure" and (c_.npath.startswith(b.npath + "::{closure") or c_.path.startswith(b.path + "::{closure"))]
+        for m_ in [m2_ for bb_ in own_bodies for m2_ in bb_.all_mirs()]:
             for bi in m_.live_blocks():
                 blk = m_.blocks[bi]
                 ops = []
